@@ -11,7 +11,7 @@ func init() {
 		technique: "field-coverage rule on the context clone (every field of ReceiveContext is copied or exempted by name with a reason), value-provenance rule (only clones enter a second mailbox), loop-shape and error-edge rules on stash/unstash",
 		explanation: "Decides: (1) a context enters the stash box or re-enters the mailbox only as the result of cloneContext (the live context is still linked into its mailbox through the intrusive next pointer); (2) cloneContext copies every field of ReceiveContext — message, sender, self, context, response channel, response state, request metadata, error — except the intrusive link 'next', so an unstashed message is handled exactly like the original (in particular an Ask keeps an open reply path); (3) stash/unstash/unstashAll report ErrStashBufferNotSet on the missing-buffer edge and ReceiveContext.Stash/Unstash/UnstashAll forward any error to Err; (4) unstashAll drains until empty with one re-enqueue per dequeued message, unstash moves exactly one (order rules shared with C03); (5) the stash box is touched only by these functions, the stash-size metric and the reentrancy stash path.",
 		assumptions: []string{"order of unstashed messages relative to messages that arrive concurrently", "FIFO of the stash box itself (UnboundedMailbox, C04)"},
-		minObl:     18,
+		minObl:     20,
 		run:        runC13,
 	})
 }
